@@ -256,15 +256,40 @@ func init() {
 								w = ArgStr(" ")
 							}
 							out = append(out, &Config{ID: fmt.Sprintf("C16/%s/%s/%s", scheme, strings.Join(pat, " "), tr), Pkg: zzhPkg, Func: "C16Inv",
-								Args: []ArgSpec{ArgStr(eco), ArgStr(scheme), ArgStr(strings.Join(pat, " ")), ArgTmpl(v[0]), ArgTmpl(v[1]), ArgTmpl(v[2]), ArgTmpl(probe), ArgStr(tr), w}})
+								Args: []ArgSpec{ArgStr(eco), ArgStr(scheme), ArgStr(strings.Join(pat, " ")), ArgTmpl(v[0]), ArgTmpl(v[1]), ArgTmpl(v[2]), ArgTmpl(v[3]), ArgTmpl(probe), ArgStr(tr), w}})
 						}
+					}
+				}
+				// k = 4: two lower/upper pairs with staggered bounds (1, 3, 5, 7 as the leading component),
+				// quick: the four mixed-inclusiveness patterns, thorough: all sixteen; every transposition
+				// and the reversal, one duplicate, one empty constraint, one space per constraint
+				for _, pat := range versPatterns(4) {
+					if !(isLowerOp(pat[0]) && isUpperOp(pat[1]) && isLowerOp(pat[2]) && isUpperOp(pat[3])) {
+						continue
+					}
+					mixed := (pat[0] == ">=") != (pat[1] == "<=") && (pat[2] == ">=") != (pat[3] == "<=")
+					if tier != "thorough" && !mixed {
+						continue
+					}
+					vs := make([]string, 4)
+					for i := range vs {
+						vs[i] = strings.Replace(vt, "{d}", fmt.Sprint(2*i+1), 1)
+					}
+					trs := []string{"perm:1,0,2,3", "perm:0,2,1,3", "perm:0,1,3,2", "perm:2,3,0,1", "perm:3,2,1,0", "perm:1,3,0,2", "dup:1", "dup:2", "empty:2", "empty:4", "ws:1:1", "ws:2:0"}
+					for _, tr := range trs {
+						w := ArgStr("")
+						if strings.HasPrefix(tr, "ws:") {
+							w = ArgStr(" ")
+						}
+						out = append(out, &Config{ID: fmt.Sprintf("C16/%s/%s/%s", scheme, strings.Join(pat, " "), tr), Pkg: zzhPkg, Func: "C16Inv",
+							Args: []ArgSpec{ArgStr(eco), ArgStr(scheme), ArgStr(strings.Join(pat, " ")), ArgTmpl(vs[0]), ArgTmpl(vs[1]), ArgTmpl(vs[2]), ArgTmpl(vs[3]), ArgTmpl(probe), ArgStr(tr), w}})
 					}
 				}
 			}
 			return out
 		},
 		Bounds: func(tier string) string {
-			return "11 schemes; comparator patterns with k <= 3 (quick: at most 24 patterns for k=2, 12 for k=3, and k <= 2 for gem and maven); all permutations, one duplicate at every position, one empty constraint at every position, one space at every (quick: every third, for k=3) byte position of every constraint (tab, CR and LF are non-printable and belong to C17)"
+			return "11 schemes; comparator patterns with k <= 3 (quick: at most 24 patterns for k=2, 12 for k=3, and k <= 2 for gem and maven), plus the two-pair patterns of k = 4 (quick: 4 of 16) under 6 permutations, 2 duplicates, 2 empty constraints and 2 spaces; all permutations, one duplicate at every position, one empty constraint at every position, one space at every (quick: every third, for k=3) byte position of every constraint (tab, CR and LF are non-printable and belong to C17)"
 		},
 	})
 
